@@ -246,12 +246,6 @@ Proof.
 Qed.
 
 (* ---- related fragments = reachable fragments, under the coverage guard ---- *)
-Definition recorded_reachable (fuel : nat) (frs : list fdef) (o : opdef) (mix unp : list string) : bool :=
-  match frag_names fuel frs (sel_spreads (o_sel o)) with
-  | Some r => forallb (fun n => mem n r) (mix ++ unp)
-  | None => false
-  end.
-
 Lemma related_sound fuel frs o mix unp rel :
   related fuel frs mix unp = Some rel -> recorded_reachable fuel frs o mix unp = true ->
   forall n, In n rel -> reach frs (sel_spreads (o_sel o)) n.
@@ -490,9 +484,6 @@ Lemma op_header_kept ins o :
 Proof. simpl. auto. Qed.
 
 (* ---------------------------------------------------------------- fragments of the sent document *)
-Definition exact_guard (fuel : nat) (frs : list fdef) (o : opdef) (mix unp : list string) : bool :=
-  covered frs o mix unp && recorded_reachable fuel frs o mix unp.
-
 Lemma doc_fragment_names_shape o' (defs : list fdef) (g : fdef -> fdef) :
   (forall f, fd_name (g f) = fd_name f) ->
   doc_fragment_names (XOp o' :: map (fun f => XFrag (g f)) defs) = map fd_name defs.
